@@ -246,6 +246,16 @@ def verus_unit(name, cfg, repo, build, tier):
 # Kani
 # ----------------------------------------------------------------------------------------------
 
+def copy_tree(repo, scratch):
+    """copy the CURRENT working tree (tracked and untracked-but-not-ignored files; no build output) to a scratch directory"""
+    rc, _, _ = sh(['git', '-C', repo, 'rev-parse', '--is-inside-work-tree'])
+    if rc == 0:
+        rc, out, err = sh(['bash', '-c', 'cd %s && git ls-files -co --exclude-standard -z | xargs -0 -I{} cp --parents {} %s/ 2>/dev/null; (cp -n Cargo.lock %s/ 2>/dev/null || true); test -f %s/Cargo.toml' % (repo, scratch, scratch, scratch)])
+    else:
+        rc, out, err = sh(['bash', '-c', 'rsync -a --exclude target --exclude .git %s/ %s/ && test -f %s/Cargo.toml' % (repo, scratch, scratch)])
+    return rc, out, err
+
+
 def kani_unit(name, cfg, repo, build, tier, prop=None):
     """copy the working tree to a scratch dir, append one `#[cfg(kani)] mod` line per harness file, run the harnesses"""
     r = dict(unit=name, kind='kani', status='ok', reason='', diags=[], harnesses=[], wall=0.0)
@@ -254,7 +264,7 @@ def kani_unit(name, cfg, repo, build, tier, prop=None):
     shutil.rmtree(scratch, ignore_errors=True)
     try:
         os.makedirs(scratch)
-        rc, out, err = sh(['bash', '-c', 'cd %s && git ls-files -z | xargs -0 -I{} cp --parents {} %s/' % (repo, scratch)])
+        rc, out, err = copy_tree(repo, scratch)
         if rc != 0:
             r.update(status='undecided', reason='cannot copy repo: ' + err[-500:]); return r
         for mod_file, harness_file in cfg['attach'].items():
@@ -323,7 +333,7 @@ def rt_unit(name, cfg, repo, build, tier, prop=None):
     shutil.rmtree(scratch, ignore_errors=True)
     try:
         os.makedirs(scratch)
-        rc, out, err = sh(['bash', '-c', 'cd %s && git ls-files -z | xargs -0 -I{} cp --parents {} %s/ && (cp -n Cargo.lock %s/ 2>/dev/null || true)' % (repo, scratch, scratch)])
+        rc, out, err = copy_tree(repo, scratch)
         if rc != 0:
             r.update(status='undecided', reason='cannot copy repo: ' + err[-500:]); return r
         for mod_file, harness_file in cfg['attach'].items():
@@ -344,7 +354,7 @@ def rt_unit(name, cfg, repo, build, tier, prop=None):
         if m:
             r['summary'] = dict(kv.split('=', 1) for kv in m.group(1).split() if '=' in kv)
         for l in out.split('\n'):
-            fm = re.match(r'RT-FAIL tags=(\S+) what=(.*?) cfg=(.*?) failing_op_index=(\d+) history=(.*)$', l.strip())
+            fm = re.search(r'RT-FAIL tags=(\S+) what=(.*?) cfg=(.*?) failing_op_index=(\d+) history=(.*)$', l.strip())
             if fm:
                 f = dict(tags=fm.group(1).split(','), what=fm.group(2), cfg=fm.group(3), history=fm.group(5))
                 r['findings'].append(f)
